@@ -10,7 +10,7 @@
    appender has committed or rolled back.
 
    The full statement is FALSE of the faithful model (and of the code: every counterexample below
-   is replayed on the real tsdb.DB by harness/cmd/h_c52, corpus cases 3-6 and 12): see the five
+   is replayed on the real tsdb.DB by harness/cmd/h_c52, corpus cases 3-6 and 8): see the five
    [C52_refuted_*] theorems.  What is proved for all histories is the statement restricted to
    histories whose oracles are well formed ([wf_run], model/HeadStats.v): no head chunk came out
    of a chunk snapshot, none was dropped by the WAL replay, every out-of-order head chunk was
